@@ -5,3 +5,8 @@ import AM.Props.C18Bucket
 import AM.Model.SilLimits
 import AM.Model.Sem
 import AM.Props.C18
+import AM.Model.Retry
+import AM.Model.Fanout
+import AM.Model.Trunc
+import AM.Model.TemplateData
+import AM.Props.C20
